@@ -34,6 +34,7 @@ import (
 	"github.com/siglens/siglens/pkg/segment/structs"
 	sutils "github.com/siglens/siglens/pkg/segment/utils"
 	"github.com/siglens/siglens/pkg/utils"
+	"github.com/siglens/siglens/pkg/verifhook"
 	log "github.com/sirupsen/logrus"
 )
 
@@ -535,6 +536,8 @@ func ExecuteQuery(root *structs.ASTNode, aggs *structs.QueryAggregators, qid uin
 
 func ExecuteQueryInternalNewPipeline(qid uint64, isAsync bool, root *structs.ASTNode, aggs *structs.QueryAggregators,
 	qc *structs.QueryContext, rQuery *query.RunningQueryState, sizeLimit uint64) {
+	verifhook.At("x.start", "qid", qid)
+	defer verifhook.At("x.done", "qid", qid)
 	queryProcessor, err := SetupPipeResQuery(root, aggs, qid, qc, qc.Scroll, sizeLimit)
 	if err != nil {
 		log.Errorf("qid=%v, ExecuteQueryInternalNewPipeline: failed to SetupPipeResQuery, err: %v", qid, err)
